@@ -24,7 +24,7 @@ META = dict(
     outside=['float edge sets where (x - min) * norm rounds across an edge', 'more than 5 traces in (c)'],
     stubs=['numba kernel interpreted; int() = truncation toward zero'],
 )
-EDGESETS = [[0, 2, 4, 6], [-4, 0, 4], [10, 11, 12, 13, 14], [0, 0.5, 1.0]]
+EDGESETS = [[0, 2, 4, 6], [-4, 0, 4], [10, 11, 12, 13, 14], [0, 0.5, 1.0], [0.5, 2.5, 4.5, 6.5]]
 
 
 def prepare(tier, seed):
@@ -33,7 +33,11 @@ def prepare(tier, seed):
 
 def jobs(tier, seed):
     js = [dict(name=f'setter-{k}edges', kind='setter', k=k) for k in (3, 4, 5)]
+    # edges handed over as an unsigned integer array (kept in its own dtype by the setter: differences wrap)
+    js += [dict(name=f'setter-{k}edges-uint8', kind='setter', k=k, dt='uint8') for k in (3, 4)]
     js += [dict(name=f'binning-{i}', kind='bin', edges=e) for i, e in enumerate(EDGESETS)]
+    # integer traces are binned over the very same (possibly fractional) edges
+    js += [dict(name=f'binning-{i}-{dt}', kind='bin', edges=e, dt=dt) for i, e in enumerate(EDGESETS) for dt in ('uint8', 'int16') if i in (0, 3, 4)]
     js += [dict(name=f'compute-n{n}', kind='compute', n=n, K=2) for n in range(1, 5 if tier == 'quick' else 7)]
     if tier == 'thorough':
         js += [dict(name=f'compute-n{n}-K3', kind='compute', n=n, K=3) for n in (4, 5)]
@@ -45,8 +49,12 @@ def job_setter(job, res):
     M = L.MODS['mia']
 
     def body(ex, pr):
-        e = S.sym_real('e', (k,), 'float64')
-        terms = [E.R(t) for t in S.terms(e)]
+        if job.get('dt'):
+            e = S.sym_bv('e', (k,), job['dt'])
+            terms = [z3.ToReal(z3.BV2Int(t)) for t in S.terms(e)]
+        else:
+            e = S.sym_real('e', (k,), 'float64')
+            terms = [E.R(t) for t in S.terms(e)]
         accepted = True
         try:
             d = M.MIADistinguisher(bin_edges=e, partitions=[0, 1])
@@ -60,7 +68,7 @@ def job_setter(job, res):
         sd = [terms[i + 2] - 2 * terms[i + 1] + terms[i] for i in range(k - 2)]
         uni = z3.And(*[z3.And(s_ <= tol, s_ >= -tol) for s_ in sd]) if sd else z3.BoolVal(True)
         pr.prove(z3.And(inc, uni), f'bin_edges setter accepts {k} edges only if they are strictly increasing and equally spaced (second differences within 1e-9)',
-                 lambda m: dict(kind='setter', edges=[float(L.frac_of_model(m, t)) for t in terms], key=dict(kind='setter')))
+                 lambda m: dict(kind='setter', dt=job.get('dt'), edges=[float(L.frac_of_model(m, t)) for t in terms], key=dict(kind='setter')))
         pr.prove(z3.BoolVal(d.bins_number == k - 1), 'accepted edges define len(edges) - 1 bins', lambda m: dict(kind='setter', edges=[float(L.frac_of_model(m, t)) for t in terms], key=dict(kind='setter-bins')))
     explore(res, body, max_paths=400, timeout_ms=20000, exact=True)
     res['obligations'] += 1
@@ -78,15 +86,22 @@ def job_bin(job, res):
 
     def body(ex, pr):
         d = M.MIADistinguisher(bin_edges=list(edges), partitions=[0, 1])
-        x = S.sym_real('x', (1, 1), 'float64')
+        dt = job.get('dt', 'float64')
+        if dt == 'float64':
+            x = S.sym_real('x', (1, 1), 'float64')
+        else:
+            x = S.sym_int('x', (1, 1), dt)
+            E.register(x.c[0, 0], [1, 3, 6])
+            ii = rnp.iinfo(dt)
+            ex.assume(z3.And(x.c[0, 0] >= int(ii.min), x.c[0, 0] <= int(ii.max)))
         y = S.const(rnp.array([[1]], dtype='uint8'))
         d.update(x, y)
         acc = d.accumulators.typed() if not d.accumulators.sym else None
-        xt = E.R(x.c[0, 0])
+        xt = E.R(x.c[0, 0]) if dt == 'float64' else z3.ToReal(x.c[0, 0])
         ed = [E.R(v) for v in edges]
 
         def wit(m):
-            return dict(kind='bin', edges=edges, x=float(L.frac_of_model(m, xt)), xfrac=[L.frac_of_model(m, xt).numerator, L.frac_of_model(m, xt).denominator], key=dict(kind='bin'))
+            return dict(kind='bin', edges=edges, dt=dt, x=float(L.frac_of_model(m, xt)), xfrac=[L.frac_of_model(m, xt).numerator, L.frac_of_model(m, xt).denominator], key=dict(kind='bin'))
         if acc is None:
             pr.prove(z3.BoolVal(False), 'accumulators stay concrete counts', wit)
             return
@@ -166,7 +181,7 @@ def replay(w):
     if w['kind'] == 'setter':
         e = w['edges']
         try:
-            scared.MIADistinguisher(bin_edges=list(e))
+            scared.MIADistinguisher(bin_edges=(np.array([int(v) for v in e], dtype=w['dt']) if w.get('dt') else list(e)))
         except (ValueError, TypeError):
             return dict(reproduced=False, detail=f'real code refuses {e}')
         inc = all(a < b for a, b in zip(e, e[1:]))
@@ -176,7 +191,7 @@ def replay(w):
         edges = w['edges']
         xs = [float(Fraction(*w['xfrac']))]
         d = scared.MIADistinguisher(bin_edges=list(edges), partitions=[0, 1])
-        x = np.array([[xs[0]]], dtype='float64')
+        x = np.array([[xs[0]]], dtype=w.get('dt', 'float64'))
         d.update(x, np.array([[1]], dtype='uint8'))
         acc = d.accumulators[0, :, :, 0]
         nb = len(edges) - 1
